@@ -12,13 +12,16 @@ CHECKS = {
     "C03": {"pkg": "verifx/c03", "run": "TestC03", "harness": EXPORTS, "level": "exploration"},
     "C05": {"pkg": "verifx/c05", "run": "TestC05", "harness": EXPORTS2, "level": "model_checking", "quick": {"budget_s": 150}, "thorough": {"budget_s": 3000}},
     "C06": {"pkg": "verifx/c05", "run": "TestC06", "harness": EXPORTS2, "level": "model_checking", "quick": {"budget_s": 150}, "thorough": {"budget_s": 3000}},
-    "C09": {"pkg": "verifx/c09", "run": "TestC09", "harness": EXPORTS2, "level": "model_checking", "quick": {"budget_s": 200}, "thorough": {"budget_s": 3000}},
+    "C09": {"pkg": "verifx/c09", "run": "TestC09", "harness": EXPORTS2, "level": "model_checking", "quick": {"budget_s": 480}, "thorough": {"budget_s": 3000}},
     "C20": {"pkg": "verifx/c20", "run": "TestC20", "harness": ["client"], "level": "model_checking"},
     "C07": {"pkg": "verifx/c07", "run": "TestC07", "harness": EXPORTS2, "level": "fault_enumeration", "thorough": {"budget_s": 2400}},
     "C08": {"pkg": "verifx/c08", "run": "TestC08", "harness": EXPORTS2, "level": "fault_enumeration"},
     "C11": {"pkg": "verifx/c11", "run": "TestC11", "harness": EXPORTS2, "level": "exploration"},
     "C16": {"pkg": "verifx/c16", "run": "TestC16", "harness": EXPORTS2, "level": "exploration", "thorough": {"budget_s": 2400}},
     "C19": {"pkg": "verifx/c19", "run": "TestC19", "harness": EXPORTS2 + ["cmd"], "level": "exploration", "shards": 8, "thorough": {"budget_s": 2400, "shards": 16}},
+    "C10": {"pkg": "verifx/c10", "run": "TestC10", "harness": EXPORTS2, "level": "model_checking", "shards": 16, "gomaxprocs": 2,
+            "instrument": ["balloon/balloon.go", "balloon/hyper/tree.go", "balloon/hyper/batch_cache.go", "consensus/cluster.go@sync"], "quick": {"budget_s": 600}, "thorough": {"budget_s": 3000},
+            "extra": [{"run": "TestC10Race", "race": True, "gomaxprocs": 8}]},
     "C12": {"pkg": "verifx/c12", "run": "TestC12", "harness": EXPORTS, "level": "exploration"},
     "C14": {"pkg": "verifx/c14", "run": "TestC14", "harness": [], "level": "exploration"},
     "C15": {"pkg": "verifx/c15", "run": "TestC15", "harness": EXPORTS2, "level": "exploration"},
